@@ -131,6 +131,11 @@ loop:
 			}
 			deploymentCounter.WithLabelValues("reserve-hostnames", "success").Inc()
 			defer dm.hostnameService.ReleaseHostnames(allHostnames)
+			if dm.state == dsTeardownPending {
+				// lease was closed while the hostnames were being reserved
+				runch = dm.startTeardown()
+				break
+			}
 			runch = dm.startDeploy()
 
 		case shutdownErr = <-dm.lc.ShutdownRequest():
